@@ -88,6 +88,50 @@ theorem if_indextoname_eq (v : List Byte) (size : Nat) (buffer sizep : Int) (p e
     · have hc' : ¬ (((w.length) : Nat) : Int) ≥ (size : Int) := by omega
       simp [hb, hs, h0, hc, hc', hp]
 
+/-- `uv_get_process_title` (proctitle.c:125-149), after `uv_setup_args` (`args_mem ≠ NULL`): return code
+    = `Getter.getProcessTitle`; `size` is passed by value, nothing is reported back -/
+theorem get_process_title_eq (v : List Byte) (size : Nat) (buffer argsMem : Int)
+    (hb : buffer ≠ 0) (ha : argsMem ≠ 0) :
+    (get_process_title argsMem buffer ((v.length : Nat) : Int) (size : Int)).map (·.ret)
+      = some (getProcessTitle v size).rc := by
+  unfold get_process_title getProcessTitle CSem.u64
+  by_cases h0 : size = 0
+  · simp [h0, CEnum.UV_EINVAL, EINVAL]
+  · by_cases hc : size ≤ v.length
+    · have hc' : (size : Int) ≤ ((v.length : Nat) : Int) := by omega
+      simp [hb, ha, h0, hc, hc', CEnum.UV_ENOBUFS, ENOBUFS]
+    · have hc' : ¬ (size : Int) ≤ ((v.length : Nat) : Int) := by omega
+      simp [hb, ha, h0, hc, hc']
+
+/-- the `*size` bookkeeping of `uv__pipe_getsockpeername` (pipe.c:372-396) once `addrlen`/`slop` are
+    known = `Getter.pipeCopy`'s (`.lenSlopGt` style: `addrlen + slop > *size`); `err ≥ 0`:
+    `uv__getsockpeername` succeeded -/
+theorem pipe_getname_size_eq (path : List Byte) (abstract : Bool) (addrlen : Nat) (old0 : Byte) (size : Nat)
+    (err : Int) (he : 0 ≤ err) (ha : addrlen < 2 ^ 32) :
+    (pipe_getname_size (addrlen : Int) err (size : Int) (if abstract then 0 else 1)).map
+        (fun o => (o.ret, o.size_deref)) = some (dec (pipeCopy path abstract addrlen old0 size)) := by
+  unfold pipe_getname_size pipeCopy dec CSem.u64
+  have he' : ¬ err < 0 := by omega
+  have h1 : (addrlen : Int) % 18446744073709551616 = addrlen := by omega
+  have h2 : ((addrlen : Int) + 1) % 18446744073709551616 = addrlen + 1 := by omega
+  have h3 : ((addrlen : Int) + 0) % 18446744073709551616 = addrlen := by omega
+  cases abstract <;> simp only [he', Bool.false_eq_true, ite_false, ite_true, decide_false, h1, h2, h3]
+  · by_cases hc : addrlen + 1 > size
+    · have hc' : (addrlen : Int) + 1 > (size : Int) := by omega
+      simp [hc, hc', CEnum.UV_ENOBUFS, ENOBUFS]
+    · have hc' : ¬ (addrlen : Int) + 1 > (size : Int) := by omega
+      simp [hc, hc']
+  · by_cases hc : size < addrlen
+    · have hc' : (addrlen : Int) > (size : Int) := by omega
+      simp [hc, hc', CEnum.UV_ENOBUFS, ENOBUFS]
+    · have hc' : ¬ (addrlen : Int) > (size : Int) := by omega
+      simp [hc, hc']
+
+/-- `uv__getsockpeername` failed: `*size = 0; return err` -/
+theorem pipe_getname_size_err (addrlen slop size err : Int) (he : err < 0) :
+    (pipe_getname_size addrlen err size slop).map (fun o => (o.ret, o.size_deref)) = some (err, 0) := by
+  unfold pipe_getname_size CSem.u64; simp [he]
+
 /-- the inactive-handle answers (`*size = 0; return UV_EINVAL`) and the library-failure answers
     (`return UV__ERR(errno)`, `*size` untouched) of the same kernels -/
 theorem getter_side_exits (buffer sizep len size e ctx : Int) (hb : buffer ≠ 0) (hs : sizep ≠ 0) (h0 : size ≠ 0) (r : Int) (hr : r ≠ 0) :
